@@ -685,6 +685,12 @@ def _protos():
         "list": lambda: [1, 2, 3],
         "pyfloat": lambda: 2.5,
         "a0d_u8": lambda: np.array(3, dtype=np.uint8),
+        # 0-d *tensor* prototypes of dtypes that are not Python's default for their kind
+        "t0d_f32": lambda: mg.tensor(np.float32(1.5)),
+        "t0d_f16": lambda: mg.tensor(np.float16(0.5)),
+        "t0d_i8": lambda: mg.tensor(np.int8(3)),
+        "t0d_u16": lambda: mg.tensor(np.uint16(7)),
+        "t0d_bool": lambda: mg.tensor(True),
     }
 
 
